@@ -1,6 +1,7 @@
-(* C10 — model of the per-module symbol names (compiler/helper.go:143-243).
+(* C10 — model of the per-module symbol names (compiler/helper.go, getHashableModuleName ... mangledNameBase).
    A path is the list of code points of the absolute file name without the ".ddp" suffix.
-   getHashableModuleName: "ddp_" ++ path with '/' and ':' replaced by '_'.
+   getHashableModuleName: "ddp_" ++ the path with '_' -> "_u", '/' -> "_s", ':' -> "_c"
+   (strings.NewReplacer over single-character patterns = a per-character substitution).
    mangledNameBase: name ++ "_mod_" ++ hex(sha256(hashable name)) — modelled as the pair
    (name, hash (hashable name)) with the hash a section variable. Definitions only. *)
 From Coq Require Import List NArith Bool.
@@ -10,12 +11,19 @@ Definition str := list N.
 Definition c_slash : N := 47.
 Definition c_colon : N := 58.
 Definition c_under : N := 95.
-Definition flat_char (c : N) : N := if N.eqb c c_slash || N.eqb c c_colon then c_under else c.
+Definition c_u : N := 117.
+Definition c_s : N := 115.
+Definition c_c : N := 99.
+Definition esc_char (c : N) : str :=
+  if N.eqb c c_under then [c_under; c_u]
+  else if N.eqb c c_slash then [c_under; c_s]
+  else if N.eqb c c_colon then [c_under; c_c]
+  else [c].
 Definition ddp_prefix : str := [100; 100; 112; 95]%N.       (* "ddp_" *)
 Definition init_suffix : str := [95; 105; 110; 105; 116]%N. (* "_init" *)
 Definition dispose_suffix : str := [95; 100; 105; 115; 112; 111; 115; 101]%N. (* "_dispose" *)
 
-Definition hashable (p : str) : str := ddp_prefix ++ map flat_char p.
+Definition hashable (p : str) : str := ddp_prefix ++ flat_map esc_char p.
 Definition init_name (p : str) : str := hashable p ++ init_suffix.
 Definition dispose_name (p : str) : str := hashable p ++ dispose_suffix.
 
